@@ -35,6 +35,14 @@ INFO = {
  "C13d": ("SM9 G1 point_add decides 'same point' by comparing the raw Jacobian Y coordinates", "the same point with Z1 != Z2: returns infinity instead of 2P"),
  "C14b": ("random_u256 fills only buf[1..] from the CSPRNG", "every call: the top byte of every SM2 scalar is zero (in range, but 248 bits of entropy)"),
  "C15c": ("Exchange::new swaps the two IDs when computing Z_A and Z_B", "the two parties' IDs differ: library-vs-library still agrees, K / S_B / S_A are not those of GB/T 32918.3"),
+ "C03c": ("sign_raw computes 1 + d by incrementing only the low limb (carry dropped)", "a private key whose low 64 bits are all ones (2^-64): wrong (1+d)^-1, every signature invalid"),
+ "C05c": ("from_byte (uncompressed) checks the coordinates against the group order n instead of the field prime p", "a point with x or y in [n, p) (2^-128): a conforming ciphertext / public key is rejected"),
+ "C06c": ("from_byte (uncompressed) range-checks x twice and y never", "C1 re-encoded with y + p (possible when y < 2^256 - p): the modified ciphertext still decrypts"),
+ "C10c": ("SM9 decrypt checks the C1 coordinates against N instead of p", "C1 with x or y in [N, p): a conforming ciphertext is rejected"),
+ "C12c": ("final_exponent uses fp12_frobenius6 instead of fp12_frobenius2 in the easy part", "every input: e(P,Q) = 1 (f^(p^12-1)); the constant map is trivially bilinear, so every round trip inside the library still succeeds"),
+ "C16c": ("mod_n_from_hash drops the carry of adding carry1 into the middle limb of the quotient estimate", "Ha with top 8 bytes equal to the top limb of N-1 and a low-limb carry (2^-64): result is not (Ha mod (N-1)) + 1"),
+ "C19c": ("encrypt_asn1 passes its `compressed` argument on to encrypt but still slices a 65-byte C1", "encrypt_asn1(.., compressed = true, ..): wrong INTEGER y / hash / ciphertext fields, panic for messages < 32 bytes"),
+ "C20c": ("SM9 verify_sign range check `h >= N` became `h > N`", "h = N: the assert in Fp12::pow panics instead of an error"),
  "C07b": ("CBC decrypt bounds the PKCS#7 pad byte by the ciphertext length instead of the block size", "a ciphertext of two or more blocks whose last decrypted byte is 17..min(255, length): accepted and truncated instead of an error"),
  "C08b": ("ZUC S-box S0[0x17] changed from 0xa5 to 0xa6", "a byte 0x17 entering S0 inside F (the EEA/EIA vectors in the crate never do; the three published keystream vectors do)"),
  "C10b": ("SM9 decrypt compares only min(|C2|, 32) bytes of C3", "a message shorter than 32 bytes and a C3 modified at a byte index >= |M|"),
